@@ -193,7 +193,7 @@ def conformance(ctx, comp, exe, sc, tsos, nseeds, nscript, wd):
                 ctx.sample({"kind": "directed schedule derived from a TLC counterexample, enforced on the real code", "scenario": sc["name"], "from": scr.get("from", ""), "order": scr["order"]})
 
 
-def run_property(ctx, pid, scenarios, negatives, live, nseeds, nscript, sc_tsos, mc_workers=3, mc_timeout=3000, coverage=False, defines=()):
+def run_property(ctx, pid, scenarios, negatives, live, nseeds, nscript, sc_tsos, mc_workers=3, mc_timeout=3000, coverage=False, defines=(), conf_only=()):
     """scenarios: names model checked (background) and executed/validated (foreground); negatives: [(scenario, mutants,
     expected)] model-level negative controls; live: [(scenario, properties)] liveness configurations."""
     import concurrent.futures as cf
@@ -203,7 +203,8 @@ def run_property(ctx, pid, scenarios, negatives, live, nseeds, nscript, sc_tsos,
     scs = [load_scenario(s) for s in scenarios if not only or s in only.split(",")]
     exe = build_driver(comp["drvname"], comp["driver"], defines=comp["defines"], tag=ctx.pid + "_" + comp["drvname"])
     with cf.ThreadPoolExecutor(1) as pool:      # one background TLC (mc_workers) + the foreground trace validator (1 worker)
-        jobs = [(sc, None, pool.submit(model_check, comp, sc, mc_workers, mc_timeout, (), (), coverage)) for sc in scs]
+        # conf_only: scenarios whose executions are validated against the specification without the exhaustive TLC run (done in the thorough tier)
+        jobs = [(sc, None, pool.submit(model_check, comp, sc, mc_workers, mc_timeout, (), (), coverage)) for sc in scs if sc["name"] not in conf_only]
         if not only:
             jobs += [(load_scenario(s), exp, pool.submit(model_check, comp, load_scenario(s), mc_workers, mc_timeout, (), tuple(m))) for s, m, exp in negatives]
             jobs += [(load_scenario(s), None, pool.submit(model_check, comp, load_scenario(s), mc_workers, mc_timeout, tuple(props))) for s, props in live]
